@@ -96,6 +96,13 @@ class TakeWhileIter:
         self.it, self.clos, self.done = it, clos, False
 
 
+class FilterMapIter:
+    __slots__ = ("it", "clos")
+
+    def __init__(self, it, clos):
+        self.it, self.clos = it, clos
+
+
 class FilterIter:
     __slots__ = ("it", "clos")
 
@@ -176,6 +183,20 @@ def call_closure(I, clos, args, depth):
     if body.nargs == len(args) + 1:
         for i_, a_ in enumerate(args):
             pty = body.locals[2 + i_]
+            # peel surplus reference levels (`all(|b| ..)` over `slice.iter()` gets `&u8`, not `&&u8`)
+            want_ = len(pty) - len(pty.lstrip("&")) if not pty.startswith("&mut") else 1
+            for _ in range(3):
+                if isinstance(a_, Ref) and isinstance(deref(I, a_), Ref):
+                    depth_ = 1
+                    t_ = deref(I, a_)
+                    while isinstance(t_, Ref):
+                        depth_ += 1
+                        t_ = deref(I, t_)
+                    if depth_ > max(want_, 1):
+                        a_ = deref(I, a_)
+                        args[i_] = a_
+                        continue
+                break
             if isinstance(a_, Ref) and not pty.startswith(("&", "*")) and not isinstance(deref(I, a_), Ref):
                 v_ = deref(I, a_)
                 if isinstance(v_, (int, float)):
@@ -254,6 +275,14 @@ def iter_next(I, it, depth):
         if rb.vi == 0:
             return rb
         return some([ra.fields[0], rb.fields[0]])
+    if isinstance(it, FilterMapIter):
+        while True:
+            r = iter_next(I, it.it, depth)
+            if r.vi == 0:
+                return r
+            o_ = call_closure(I, it.clos, [r.fields[0]], depth)
+            if o_.vi == 1:
+                return o_
     if isinstance(it, FilterIter):
         while True:
             r = iter_next(I, it.it, depth)
@@ -634,6 +663,19 @@ def call(I, fr, name, fname, k, args, depth):
         return TakeWhileIter(_hold(args[0]), args[1])
     if name.endswith("Iterator::filter"):
         return FilterIter(_hold(args[0]), args[1])
+    if name.endswith("Iterator::filter_map"):
+        return FilterMapIter(_hold(args[0]), args[1])
+    if name.endswith("Iterator::flatten") and isinstance(args[0], (ValIter,)):
+        flat_ = []
+        for x in args[0].v[args[0].i:]:
+            if isinstance(x, Adt) and x.path.endswith("Option"):
+                if x.vi == 1:
+                    flat_.append(x.fields[0])
+            elif isinstance(x, list):
+                flat_.extend(x)
+            else:
+                raise Unsupported("Iterator::flatten over %r" % (x,))
+        return ValIter(flat_)
     if name.endswith("Iterator::count") or name.endswith("Iterator>::count"):
         n = 0
         while iter_next(I, args[0], depth).vi == 1:
@@ -1935,6 +1977,83 @@ def call(I, fr, name, fname, k, args, depth):
             raise Unsupported("str::get with %r" % (r,))
         okb = lo <= hi <= a.len and all(b_ in (0, a.len) or (a.heap[a.start + b_] & 0xC0) != 0x80 for b_ in (lo, hi))
         return some(Slice(a.heap, a.start + lo, hi - lo, 1)) if okb else NONE()
+    if name.endswith("string::String::into_bytes"):
+        return list(deref(I, args[0]).b) if isinstance(deref(I, args[0]), StrBuf) else list(as_slice(I, args[0]).heap)
+    if name.endswith("string::String::into_boxed_str") or name.endswith("str::<impl str>::into_boxed_str"):
+        return args[0]
+    if name.endswith("string::String::try_reserve_exact") or name.endswith("string::String::try_reserve") or name.endswith("vec::Vec::<T, A>::try_reserve") or name.endswith("vec::Vec::<T, A>::try_reserve_exact"):
+        if args[1] > 1 << 26:
+            return err(Opaque("TryReserveError"))
+        return ok([])
+    if name.endswith("string::String::reserve") or name.endswith("vec::Vec::<T, A>::reserve") or name.endswith("vec::Vec::<T, A>::shrink_to_fit") or name.endswith("string::String::shrink_to_fit"):
+        return []
+    if name.endswith("result::Result::<T, E>::err"):
+        o = args[0]
+        return some(o.fields[0]) if o.vname == "Err" else NONE()
+    if name.endswith("vec::Vec::<T, A>::retain") or name.endswith("vec::Vec::<T, A>::retain_mut"):
+        v = deref(I, args[0])
+        v[:] = [x for x in v if call_closure(I, args[1], [tmp_ref(x)], depth)]
+        return []
+    if name.endswith("borrow::Cow<'_, B> as std::cmp::Ord>::cmp") or name.endswith("borrow::Cow<'a, B> as std::cmp::Ord>::cmp") or name.endswith("string::String as std::cmp::Ord>::cmp") or name.endswith("str as std::cmp::Ord>::cmp") or name.endswith("string::String as std::cmp::PartialOrd>::partial_cmp") or name.endswith("str as std::cmp::PartialOrd>::partial_cmp"):
+        a_ = as_slice(I, args[0])
+        b_ = as_slice(I, args[1])
+        ba_, bb_ = bytes(a_.heap[a_.start:a_.start + a_.len]), bytes(b_.heap[b_.start:b_.start + b_.len])
+        c_ = (ba_ > bb_) - (ba_ < bb_)
+        ordv = Adt("core::cmp::Ordering", c_ + 1, ["Less", "Equal", "Greater"][c_ + 1], [])
+        return ordv if name.endswith("::cmp") else some(ordv)
+    if name.endswith("Iterator::min_by") or name.endswith("Iterator::max_by") or name.endswith("Iterator::min_by_key") or name.endswith("Iterator::max_by_key") or name.endswith("Iterator::min") or name.endswith("Iterator::max"):
+        items = []
+        while True:
+            r_ = iter_next(I, args[0], depth)
+            if r_.vi == 0:
+                break
+            items.append(r_.fields[0])
+        if not items:
+            return NONE()
+        meth_ = name.rsplit("::", 1)[-1]
+        best = items[0]
+        for x in items[1:]:
+            if meth_ in ("min_by", "max_by"):
+                c_ = call_closure(I, args[1], [tmp_ref(best), tmp_ref(x)], depth).vi - 1
+            elif meth_ in ("min_by_key", "max_by_key"):
+                ka_, kb_ = call_closure(I, args[1], [tmp_ref(best)], depth), call_closure(I, args[1], [tmp_ref(x)], depth)
+                c_ = (ka_ > kb_) - (ka_ < kb_)
+            else:
+                va_, vb_ = deref(I, best), deref(I, x)
+                c_ = (va_ > vb_) - (va_ < vb_)
+            # min keeps the first of equals, max the last
+            if (meth_.startswith("min") and c_ > 0) or (meth_.startswith("max") and c_ <= 0):
+                best = x
+        return some(best)
+    if name.startswith("libm::") or name.startswith("<libm::"):
+        import math
+
+        fn_ = name.rsplit("::", 1)[-1]
+        xs = [float(x) for x in args]
+        try:
+            if fn_ == "pow":
+                return math.pow(xs[0], xs[1])
+            if hasattr(math, fn_):
+                return float(getattr(math, fn_)(*xs))
+        except (ValueError, OverflowError):
+            return float("nan")
+        raise Unsupported("unmodelled call %s" % name)
+    if name.endswith("string::String as std::clone::Clone>::clone_from"):
+        dst_ = deref(I, args[0])
+        src_ = as_slice(I, args[1])
+        dst_.b[:] = list(src_.heap[src_.start:src_.start + src_.len])
+        return []
+    if name.endswith("Iterator>::rposition") or name.endswith("Iterator::rposition"):
+        it_ = deref(I, args[0])
+        if isinstance(it_, SliceIter):
+            sl_ = it_.s
+            for i_ in range(sl_.len - 1, it_.i - 1, -1):
+                if call_closure(I, args[1], [ElemRef(sl_, i_)], depth):
+                    return some(i_ - it_.i)
+            return NONE()
+        raise Unsupported("rposition on %r" % (it_,))
+    if "map::OccupiedEntry::<" in name or "map::VacantEntry::<" in name:
+        raise Unsupported("map entry variant API %s" % name)
     if name.endswith("string::String::truncate"):
         sb_ = deref(I, args[0])
         del sb_.b[args[1]:]
@@ -2073,7 +2192,7 @@ def call(I, fr, name, fname, k, args, depth):
     if name.endswith("str::<impl str>::chars"):
         return CharsIter(as_slice(I, args[0]))
     if name.endswith("str::<impl str>::bytes"):
-        return SliceIter(as_slice(I, args[0]))
+        return CopiedIter(SliceIter(as_slice(I, args[0])))  # `Bytes` yields u8 by value
     if name.endswith("str::<impl str>::is_empty"):
         return int(as_slice(I, args[0]).len == 0)
     if name.endswith("char::methods::<impl char>::len_utf8"):
